@@ -106,3 +106,114 @@ V("c09-reorder-elif-equiv", "C09", "silent", None,
        "    elif ss in ('no', 'false', 'off'):\n        return False\n",
        "    if ss in ('off', 'no', 'false'):\n        return False\n"
        "    if ss in ('on', 'yes', 'true'):\n        return True\n"))
+
+# ---------------------------------------------------------------- C04
+SU = "src/ZConfig/substitution.py"
+V("c04-dollar-rest-off", "C04", "fire", "C04.R3",
+  (SU, "return s[:i + 1], None, None, s[i + 2:], None",
+       "return s[:i + 1], None, None, s[i + 1:], None"))
+V("c04-brace-i", "C04", "fire", "C04.R3",
+  (SU, "            i = m.end() + 1\n            if not s.startswith(\"}\", i - 1):",
+       "            i = m.end() + 1\n            if not s.startswith(\"}\", i):"))
+V("c04-paren-end", "C04", "fire", "C04.R3",
+  (SU, "            i = m.end() + 1\n            if not s.startswith(\")\", i - 1):",
+       "            i = m.end()\n            if not s.startswith(\")\", i):"))
+V("c04-reassoc-equiv", "C04", "silent", None,
+  (SU, "            i = m.end() + 1\n            if not s.startswith(\")\", i - 1):",
+       "            j = m.end()\n            i = j + 1\n            if not s.startswith(\")\", j):"))
+V("c04-swap-names", "C04", "fire", "C04.R",
+  (SU, "return prefix, name.lower(), name, s[i:], vtype",
+       "return prefix, name, name.lower(), s[i:], vtype"))
+V("c04-env-lowercase", "C04", "fire", "C04.R4",
+  (SU, "v = os.getenv(namecase)", "v = os.getenv(name)"))
+V("c04-rescan", "C04", "fire", "C04.R4",
+  (SU, "                result += v", "                rest = v + rest"))
+V("c04-digit-first", "C04", "fire", "C04.R1",
+  (SU, "_name_re = r'[a-zA-Z_][a-zA-Z0-9_]*'",
+       "_name_re = r'[a-zA-Z0-9_][a-zA-Z0-9_]*'"))
+V("c04-lazy-name", "C04", "fire", "C04.R1",
+  (SU, "_name_re = r'[a-zA-Z_][a-zA-Z0-9_]*'",
+       "_name_re = r'[a-zA-Z_][a-zA-Z0-9_]*?'"))
+V("c04-w-equiv-not", "C04", "fire", "C04.R1",
+  (SU, "_name_re = r'[a-zA-Z_][a-zA-Z0-9_]*'",
+       "_name_re = r'[a-zA-Z_]\\w*'"))
+V("c04-error-name", "C04", "fire", "C04.R4",
+  (SU, "raise ZConfig.SubstitutionReplacementError(s, namecase)",
+       "raise ZConfig.SubstitutionReplacementError(rest, namecase)"))
+V("c04-fastpath", "C04", "fire", "C04.R4",
+  (SU, "    else:\n        return s\n\n\ndef isname",
+       "    else:\n        return s.strip()\n\n\ndef isname"))
+V("c04-prefix-order", "C04", "fire", "C04.R4",
+  (SU, "            result += p\n", "            result = p + result\n"))
+V("c04-lone-dollar-class", "C04", "fire", "C04.R3",
+  (SU, "            raise ZConfig.SubstitutionSyntaxError(\n                \"illegal lone '$' at end of source\")",
+       "            raise ZConfig.SubstitutionReplacementError(\n                s, \"illegal lone '$' at end of source\")"))
+V("c04-isname-prefix", "C04", "fire", "C04.R2",
+  (SU, "        return m.group() == s", "        return True"))
+
+# ---------------------------------------------------------------- C03
+CF = "src/ZConfig/cfgparser.py"
+V("c03-key-star", "C03", "fire", "C03.R1",
+  (CF, '_name_re = r"[^\\s()]+"', '_name_re = r"[^\\s()]*"'))
+V("c03-key-allows-paren", "C03", "fire", "C03.R",
+  (CF, '_name_re = r"[^\\s()]+"', '_name_re = r"[^\\s(]+"'))
+V("c03-kv-space-plus", "C03", "fire", "C03.R1",
+  (CF, r'(?P<key>%s)\s*(?P<value>[^\s].*)?$', r'(?P<key>%s)\s+(?P<value>[^\s].*)?$'))
+V("c03-kv-S-equiv", "C03", "silent", None,
+  (CF, r'(?P<key>%s)\s*(?P<value>[^\s].*)?$', r'(?P<key>%s)\s*(?P<value>\S.*)?$'))
+V("c03-section-no-dollar", "C03", "fire", "C03.R2",
+  (CF, '                               r"$"\n', '                               r""\n'))
+V("c03-section-name-star", "C03", "silent", None,
+  (CF, r'r"(?:\s+(?P<name>%s))?"', r'r"(?:\s*(?P<name>%s))?"'))
+V("c03-closer-window", "C03", "fire", "C03.R3",
+  (CF, "section = self.end_section(section, line[2:-1])",
+       "section = self.end_section(section, line[1:-1])"))
+V("c03-opener-window", "C03", "fire", "C03.R3",
+  (CF, "section = self.start_section(section, line[1:-1])",
+       "section = self.start_section(section, line[1:])"))
+V("c03-comment-semicolon", "C03", "fire", "C03.R3",
+  (CF, 'if line[:1] in ("", "#"):', 'if line[:1] in ("", "#", ";"):'))
+V("c03-line0-unguarded", "C03", "fire", "C03.R",
+  (CF, 'if line[:1] in ("", "#"):', 'if line[0] == "#" or line == "":'))
+V("c03-startswith-equiv", "C03", "silent", None,
+  (CF, '            elif line[:2] == "</":', '            elif line.startswith("</"):'))
+V("c03-no-strip", "C03", "fire", "C03.R4",
+  (CF, "            return False, line.strip()", "            return False, line.rstrip()"))
+V("c03-lineno-early", "C03", "fire", "C03.R4",
+  (CF, "        line = self.file.readline()\n        if line:\n            self.lineno += 1",
+       "        line = self.file.readline()\n        self.lineno += 1\n        if line:"))
+V("c03-empty-slice", "C03", "fire", "C03.R5",
+  (CF, 'isempty = rest[-1:] == "/"', 'isempty = rest[-2:] == "/"'))
+V("c03-strip-not-rstrip", "C03", "fire", "C03.R5",
+  (CF, "        text = rest.rstrip()\n", "        text = rest.strip()\n"))
+V("c03-name-not-lowered", "C03", "fire", "C03.R5",
+  (CF, "        if name:\n            name = self._normalize_case(name)\n", ""))
+V("c03-no-lower", "C03", "fire", "C03.R5",
+  (CF, "        return string.lower()", "        return string"))
+V("c03-push-before-start", "C03", "fire", "C03.R5",
+  (CF, "        try:\n            newsect = self.context.startSection(section, type_, name)",
+       "        self.stack.append((type_, name, section))\n        try:\n            newsect = self.context.startSection(section, type_, name)"))
+V("c03-closer-no-compare", "C03", "fire", "C03.R5",
+  (CF, "        if type_ != opentype:\n            self.error(\"unbalanced section end\")\n", ""))
+V("c03-unclosed-ok", "C03", "fire", "C03.R5",
+  (CF, "        if self.stack:\n            self.error(\"unclosed sections not allowed\")\n", ""))
+V("c03-directive-extra", "C03", "fire", "C03.R7",
+  (CF, 'if name not in ("define", "import", "include"):',
+       'if name not in ("define", "import", "include", "set"):'))
+V("c03-directive-noarg", "C03", "fire", "C03.R7",
+  (CF, "        if not arg:\n            self.error(\"missing argument to %%%s directive\" % name)\n", ""))
+V("c03-value-none", "C03", "fire", "C03.R8",
+  (CF, "        if not value:\n            value = ''\n        else:\n            value = self.replace(value)",
+       "        if value:\n            value = self.replace(value)"))
+V("c03-key-lowered", "C03", "fire", "C03.R8",
+  (CF, "section.addValue(key, value, (self.lineno, None, self.url))",
+       "section.addValue(key.lower(), value, (self.lineno, None, self.url))"))
+V("c03-error-class", "C03", "fire", "C03.R9",
+  (CF, "raise ZConfig.ConfigurationSyntaxError(message, self.url, self.lineno)",
+       "raise ZConfig.ConfigurationError(message, self.url)"))
+V("c03-directive-rebinds", "C03", "fire", "C03.R3",
+  (CF, "                self.handle_directive(section, line[1:])",
+       "                section = self.handle_directive(section, line[1:])"))
+V("c03-elif-reorder-equiv", "C03", "silent", None,
+  (CF, '            if line[:1] in ("", "#"):\n                # blank line or comment\n                pass\n',
+       '            if not line or line[0] == "#":\n                pass\n'))
